@@ -158,6 +158,53 @@ fn run_scenario(sc: Value) -> Value {
     json!({"id": sc.get("id").cloned().unwrap_or(Value::Null), "steps": steps_out, "log": log, "parsed": parsed})
 }
 
+/// Runs scenarios on one big-stack thread until one of them panics; returns the results and whether the
+/// thread has to be replaced (thread-local engine state is not trusted after a panic).
+fn run_batch(lines: Vec<String>) -> (Vec<Value>, usize) {
+    let h = std::thread::Builder::new()
+        .stack_size(256 << 20)
+        .spawn(move || {
+            let mut done = 0usize;
+            let stdout = std::io::stdout();
+            for line in &lines {
+                let sc: Value = match serde_json::from_str(line) {
+                    Ok(v) => v,
+                    Err(e) => {
+                        eprintln!("bad scenario line: {e}");
+                        std::process::exit(2);
+                    }
+                };
+                let id = sc.get("id").cloned().unwrap_or(Value::Null);
+                PARTIAL.with(|p| p.borrow_mut().clear());
+                let _ = take_out();
+                let r = std::panic::catch_unwind(std::panic::AssertUnwindSafe(|| run_scenario(sc)));
+                let (res, panicked) = match r {
+                    Ok(v) => (v, false),
+                    Err(p) => {
+                        let loc = LAST_PANIC.with(|c| c.borrow().clone());
+                        let partial = PARTIAL.with(|p| p.borrow().clone());
+                        let out = take_out();
+                        (json!({"id": id, "panic": format!("{} @ {}", panic_message(&p), loc), "partial": partial, "out_at_panic": out}), true)
+                    }
+                };
+                let mut lock = stdout.lock();
+                serde_json::to_writer(&mut lock, &res).expect("write");
+                lock.write_all(b"\n").expect("write");
+                lock.flush().expect("flush");
+                done += 1;
+                if panicked {
+                    break;
+                }
+            }
+            done
+        })
+        .expect("spawn");
+    match h.join() {
+        Ok(done) => (Vec::new(), done),
+        Err(_) => (Vec::new(), usize::MAX),
+    }
+}
+
 fn main() {
     quiet_panics();
     let args: Vec<String> = std::env::args().collect();
@@ -166,44 +213,13 @@ fn main() {
     } else {
         Box::new(std::io::BufReader::new(std::io::stdin()))
     };
-    let stdout = std::io::stdout();
-    for line in input.lines() {
-        let line = line.expect("read");
-        if line.trim().is_empty() {
-            continue;
+    let mut lines: Vec<String> = input.lines().map(|l| l.expect("read")).filter(|l| !l.trim().is_empty()).collect();
+    while !lines.is_empty() {
+        let (_, done) = run_batch(lines.clone());
+        if done == usize::MAX {
+            // the worker thread died outside catch_unwind (e.g. a panic while unwinding): let the driver see an abort
+            std::process::exit(101);
         }
-        let sc: Value = match serde_json::from_str(&line) {
-            Ok(v) => v,
-            Err(e) => {
-                eprintln!("bad scenario line: {e}");
-                std::process::exit(2);
-            }
-        };
-        let id = sc.get("id").cloned().unwrap_or(Value::Null);
-        let res = match isolated(move || {
-            PARTIAL.with(|p| p.borrow_mut().clear());
-            let r = std::panic::catch_unwind(std::panic::AssertUnwindSafe(|| run_scenario(sc)));
-            match r {
-                Ok(v) => v,
-                Err(p) => {
-                    let loc = LAST_PANIC.with(|c| c.borrow().clone());
-                    let partial = PARTIAL.with(|p| p.borrow().clone());
-                    let out = take_out();
-                    json!({"panic": format!("{} @ {}", panic_message(&p), loc), "partial": partial, "out_at_panic": out})
-                }
-            }
-        }) {
-            Ok(mut v) => {
-                if v.get("panic").is_some() {
-                    v["id"] = id;
-                }
-                v
-            }
-            Err(m) => json!({"id": id, "panic": m}),
-        };
-        let mut lock = stdout.lock();
-        serde_json::to_writer(&mut lock, &res).expect("write");
-        lock.write_all(b"\n").expect("write");
-        lock.flush().expect("flush");
+        lines.drain(..done.min(lines.len()));
     }
 }
